@@ -980,7 +980,7 @@ impl Prop for C24 {
     "case = one session (fresh in-process server + scratch index directory, 20-30 raw HTTP/1.1 requests drawn from valid / hostile / mutated bodies, content types, methods, paths, framings around the body limit, stalls, core errors and panics, disk actions); every request is one evaluation; a request is non-trivial when it exercises a failure branch (the model's expected status is not 2xx) ; distinct = distinct (server config, index state, request) JSON"
   }
   fn count(&self, tier: Tier) -> usize {
-    tier.pick(64, 2500)
+    tier.pick(64, 6000)
   }
   fn gen(&self, rng: &mut Rng, _tier: Tier, i: usize) -> Value {
     let max_body = *rng.pick(&[1024usize, 2048, 4096, 16384]);
